@@ -602,6 +602,7 @@ func c08Ring(t *rapid.T, ev *evProp) {
 		sbuf := append(make([]byte, 0, len(scope)+4), scope...)
 		pos, x := uniformInt(t, 0, len(sbuf)-1, "scopebyte"), byte(1+rapid.IntRange(0, 254).Draw(t, "scopexor"))
 		sbuf[pos] ^= x
+		firstScope := append([]byte(nil), sbuf...)
 		sigA := anon.Sign(suite, msg, ring, sbuf, mine, privs[mine])
 		tagA, errA := anon.Verify(suite, msg, ring, sbuf, sigA)
 		sbuf[pos] ^= x
@@ -615,11 +616,13 @@ func c08Ring(t *rapid.T, ev *evProp) {
 		switch {
 		case errA != nil:
 			violationOrKnown(t, ev, "C08/ring/"+name+"/scope-buffer", "honest linkable signature rejected: %v\n%s", errA, ctx)
+		case bytes.Equal(firstScope, newScope):
+			// (a one-byte scope can come back to the first content: nothing was rewritten)
 		case errB != nil || !bytes.Equal(tagB, wantB) || bytes.Equal(tagB, tagA):
-			violationOrKnown(t, ev, "C08/ring/"+name+"/scope-buffer", "after the scope buffer was rewritten in place (%x -> %x) the new signature verifies with err=%v and tag %x; expected x*H(new scope) = %x (old tag %x)\n%s", scope, newScope, errB, tagB, wantB, tagA, ctx)
+			violationOrKnown(t, ev, "C08/ring/"+name+"/scope-buffer", "after the scope buffer was rewritten in place (%x -> %x) the new signature verifies with err=%v and tag %x; expected x*H(new scope) = %x (old tag %x)\n%s", firstScope, newScope, errB, tagB, wantB, tagA, ctx)
 		default:
 			if _, err := anon.Verify(suite, msg, ring, sbuf, sigA); err == nil {
-				violationOrKnown(t, ev, "C08/ring/"+name+"/scope-buffer", "the signature made under scope %x verifies through the same buffer after it was rewritten to %x\n%s", scope, newScope, ctx)
+				violationOrKnown(t, ev, "C08/ring/"+name+"/scope-buffer", "the signature made under scope %x verifies through the same buffer after it was rewritten to %x\n%s", firstScope, newScope, ctx)
 			}
 		}
 	}
